@@ -24,6 +24,11 @@ NEXC = len(EXC_NAMES)
 INIT4 = [(a, b) for a in (True, False) for b in (True, False)]       # RUN2D set?, RUN1D set?
 # ... or set to the empty string, or to the very value the parameter file is going to set
 INIT9 = [(a, b) for a in (True, False, 'empty', 'same') for b in (True, False, 'empty', 'same')]
+# what a variable holds on entry is the caller's business: any string must come back exactly (paths with a trailing or doubled
+# separator, './', '/./', blanks, '=', non-ASCII, text that looks like a version or a number, long values)
+ENTRY_RUN = ['orig2d', 'test/v5_7_0', 'v5_7_0/', './trunk', 'with blank', ' v5 ', 'r\u00e9duction', 'a=b', '26', 'x' * 300, '/abs/redux//v1', '..']
+ENTRY_CALIB = ['/calib/dir', '/calib/dir/', '/calib//dir', './calib', '/data/./calib', 'calib dir', '/calib/\u00e9t\u00e9', '/calib/dir/.', '~/calib',
+               '/' + 'c' * 300, '/calib/dir//', 'calib']
 NINIT = len(INIT9)
 FILE_RUN = 'v5_7_0'
 WS_NATURAL = ['calib_unset', 'resolve_unset', 'flist_missing', 'flist_truncated', 'rescore_exists', 'score_raises', 'score_exits',
@@ -55,7 +60,7 @@ class C20(Check):
                    'window_score runs with a stub sdss_score collaborator (as the repository\'s own tests do); its failure is injected',
                    'template_input runs on a synthetic two-plate survey tree (vlib/gen/survey_tree.py, content=spectra) in a temporary cwd',
                    'only Python-level collaborators raise PY_START events; C-level calls are covered by the line-level faults']
-    REQUIRED_COUNTERS = ('ti_runs_with_unloadable_configured_backend', 'clean_runs_restored', 'line_faults_fired', 'call_faults_fired', 'natural_failures_seen',
+    REQUIRED_COUNTERS = ('entry_values_with_a_path_separator', 'ti_runs_with_unloadable_configured_backend', 'clean_runs_restored', 'line_faults_fired', 'call_faults_fired', 'natural_failures_seen',
                          'faults_while_env_modified', 'putenv_events_observed', 'ws_runs', 'ti_runs')
     CASE_CPU_S = 300
     QUICK_SHARDS = 8
@@ -146,14 +151,14 @@ class C20(Check):
         q = self.tier == 'quick'
         if cls.startswith('ws'):
             if cls == 'ws_clean':
-                return {'entry': 'ws', 'rescore': bool(i % 2), 'calib': '/calib/dir/%d' % i, 'fault': {'mode': 'none'}}
+                return {'entry': 'ws', 'rescore': bool(i % 2), 'calib': ENTRY_CALIB[(i * 5 + 1) % len(ENTRY_CALIB)], 'fault': {'mode': 'none'}}
             if cls == 'ws_line':
                 k = (i // 2) * (2 if q else 1)
-                return {'entry': 'ws', 'rescore': bool(i % 2), 'calib': '/calib/dir', 'fault': {'mode': 'line', 'index': k, 'exc': EXC_NAMES[k % NEXC]}}
+                return {'entry': 'ws', 'rescore': bool(i % 2), 'calib': ENTRY_CALIB[(i // 2) % len(ENTRY_CALIB)], 'fault': {'mode': 'line', 'index': k, 'exc': EXC_NAMES[k % NEXC]}}
             if cls == 'ws_call':
                 k = i // 2
-                return {'entry': 'ws', 'rescore': bool(i % 2), 'calib': '/calib/dir', 'fault': {'mode': 'call', 'index': k, 'exc': EXC_NAMES[(k + 1) % NEXC]}}
-            return {'entry': 'ws', 'rescore': bool(i % 2), 'calib': '/calib/dir',
+                return {'entry': 'ws', 'rescore': bool(i % 2), 'calib': ENTRY_CALIB[(i // 2 + 5) % len(ENTRY_CALIB)], 'fault': {'mode': 'call', 'index': k, 'exc': EXC_NAMES[(k + 1) % NEXC]}}
+            return {'entry': 'ws', 'rescore': bool(i % 2), 'calib': ENTRY_CALIB[(i // 2 + 3) % len(ENTRY_CALIB)],
                     'fault': {'mode': 'natural', 'natural': WS_NATURAL[(i // 2) % len(WS_NATURAL)]}}
         ncfg = 2 if q else 8
 
@@ -163,16 +168,18 @@ class C20(Check):
         if cls == 'ti_clean':
             c = cfg(i)
             c['init'] = list(INIT9[(i // 2) % NINIT])
+            c['entry'] = i
             return {'entry': 'ti', 'cfg': c, 'fault': {'mode': 'none'}}
         if cls == 'ti_line':
             k = (i // ncfg) * (10 if q else 1) + ((i % ncfg) * 5 if q else 0)
-            return {'entry': 'ti', 'cfg': cfg(i % ncfg), 'fault': {'mode': 'line', 'index': k, 'exc': EXC_NAMES[k % NEXC]}}
+            return {'entry': 'ti', 'cfg': dict(cfg(i % ncfg), entry=i), 'fault': {'mode': 'line', 'index': k, 'exc': EXC_NAMES[k % NEXC]}}
         if cls == 'ti_call':
             k = (i // ncfg) * (4 if q else 1) + ((i % ncfg) * 2 if q else 0)
-            return {'entry': 'ti', 'cfg': cfg(i % ncfg), 'fault': {'mode': 'call', 'index': k, 'exc': EXC_NAMES[(k + 2) % NEXC]}}
+            return {'entry': 'ti', 'cfg': dict(cfg(i % ncfg), entry=i), 'fault': {'mode': 'call', 'index': k, 'exc': EXC_NAMES[(k + 2) % NEXC]}}
         nn = len(TI_NATURAL)
         c = cfg(i // nn)
         c['init'] = list(INIT9[(i // nn + i) % NINIT])
+        c['entry'] = i
         return {'entry': 'ti', 'cfg': c, 'fault': {'mode': 'natural', 'natural': TI_NATURAL[i % nn]}}
 
     # ------------------------------------------------------------------ fixtures
@@ -422,8 +429,9 @@ class C20(Check):
         wd = os.path.join(self.workdir, 'ti%d' % self._n)
         os.makedirs(wd)
         env = {'BOSS_SPECTRO_REDUX': tree['topdir'], 'SPECTRO_MATCH': tree['match'], 'PHOTO_RESOLVE': tree['resolve'],
-               'RUN2D': {True: 'orig2d', False: None, 'empty': '', 'same': FILE_RUN}[cfg['init'][0]],
-               'RUN1D': {True: 'orig1d', False: None, 'empty': '', 'same': FILE_RUN}[cfg['init'][1]]}
+               'RUN2D': {True: ENTRY_RUN[cfg.get('entry', 0) % len(ENTRY_RUN)], False: None, 'empty': '', 'same': FILE_RUN}[cfg['init'][0]],
+               'RUN1D': {True: ENTRY_RUN[(cfg.get('entry', 0) * 7 + 3) % len(ENTRY_RUN)], False: None, 'empty': '', 'same': FILE_RUN}[cfg['init'][1]]}
+        out.count('entry_values_with_a_path_separator', sum(1 for k in ('RUN2D', 'RUN1D') if env[k] and '/' in env[k]))
 
         def factory(variant=None, subdir='clean'):
             w = os.path.join(wd, subdir)
